@@ -40,7 +40,7 @@ M = [
  ("reshape_column_major", "Tensor.tla",
   "Unflat3(v, c, h, w) ==\n  TLCEval([i \\in 1..c |-> TLCEval([j \\in 1..h |-> TLCEval([k \\in 1..w |-> v[((i-1)*h + (j-1))*w + k]])])])",
   "Unflat3(v, c, h, w) ==\n  TLCEval([i \\in 1..c |-> TLCEval([j \\in 1..h |-> TLCEval([k \\in 1..w |-> v[((i-1)*w + (k-1))*h + j]])])])",
-  "MC_C14", {"MaxDim": 3, "MaxCount": 8, "Depth": 2}, "RowMajorPreserved|RoundTrip"),
+  "MC_C14", {"MaxDim": 3, "MaxCount": 8, "Depth": 2, "WithViews": "TRUE"}, "RowMajorPreserved|RoundTrip"),
  ("conv_backward_swaps_stride_and_dilation", "Layers.tla",
   "TapW(c, o, b) == (o - 1)*c.sw + (b - 1)*c.dw + 1",
   "TapW(c, o, b) == (o - 1)*c.sw + (b - 1)*c.dw + 1\nTapWbad(c, o, b) == (o - 1)*c.dw + (b - 1)*c.sw + 1",
